@@ -1,7 +1,8 @@
 """Shared helpers for profiles: vocabulary, universe generation, data generation, common ops."""
 from .. import x as X
 
-NAME_POOL = ["bob", "bob-x", "bob.x", "bob+x", "alice", "Al_1", "x_y", "dagger", "o0", "Zed", "a", "rig_b"]
+# includes pairs where one name is another one plus the filename separator (x / x_y, rig_b vs task rig, Al / Al_1)
+NAME_POOL = ["bob", "bob-x", "bob.x", "bob+x", "alice", "Al", "Al_1", "x", "x_y", "dagger", "o0", "Zed", "a", "rig_b", "rig"]
 PLAIN_NAMES = ["bob", "alice", "dagger", "Zed", "o0", "a"]
 VERSION_NUMS = [0, 1, 2, 3, 9, 10, 99, 100, 998, 999]
 ATTR_KEYS = ["comment", "author", "frames", "ok", "tags", "meta"]
